@@ -489,6 +489,7 @@ func runLongChatLines(c *Case) {
 	if len(chat) == 4 {
 		callSync(ts, ccs[1], mkTran(hotline.TranJoinChat, 901, fld(hotline.FieldChatID, chat)))
 	}
+	canon := ""
 	for k := 0; k < 4 && !c.failed; k++ {
 		sender := ccs[r.Intn(len(ccs))]
 		msg := textBytes(r, r.Pick(8150, 8170, 8175, 8176, 8177, 8185, 8192, 8193, 8300, 9000, 9100, 40))
@@ -532,9 +533,10 @@ func runLongChatLines(c *Case) {
 			}
 			c.Corr("chat-transaction-decodes", c.AskS("trandec", hx(enc)), "ok "+tranStrGo(&t), true)
 		}
-		c.Nontrivial(fmt.Sprintf("%d/%v/%v/%x", len(msg), emote, private, fnv64a(msg)))
+		canon += fmt.Sprintf("%d/%v/%v/%x;", len(msg), emote, private, fnv64a(msg))
 		c.Dist(fmt.Sprintf("long-chat/over-limit:%v", len(want) == 8192))
 	}
+	c.Nontrivial(canon)
 }
 
 // ---------------------------------------------------------------- replies after the id space wrapped
